@@ -291,6 +291,14 @@ def check(run):
                 a_, b_ = _val(e_['lhs'], depth + 1), _val(e_['rhs'], depth + 1)
                 if a_ is not None and b_ is not None:
                     return {'*': a_ * b_, '+': a_ + b_, '-': a_ - b_}[e_['op']]
+            if is_node(e_) and e_['k'] == 'ref' and e_.get('dk') == 'local' and depth < 4:
+                ds_ = q.local_defs(ipk_, e_['did'])
+                if len(ds_) == 1:
+                    return _val(ds_[0][1], depth + 1)
+            if is_node(e_) and e_['k'] == 'ref' and e_.get('dk') in ('global', 'static-member'):      # a named constant
+                for gl_ in fx.globals.values():
+                    if gl_.get('const') and gl_.get('value') is not None and (gl_['name'] == e_.get('name') or gl_['name'].split('::')[-1] == (e_.get('name') or '').split('::')[-1]):
+                        return gl_['value']
             if is_node(e_) and e_['k'] == 'member' and e_.get('mk') == 'field':
                 for r_ in fx.records.values():           # a member limit: its in-class initialiser is what an untouched socket has
                     for f_ in r_['fields']:
